@@ -3,7 +3,7 @@ run-to-run variation a single-threaded, seedless library can have."""
 import re
 import simlib
 import q, engines
-from simlib import strip_targs, is_node
+from simlib import strip_targs, is_node, walk
 
 EXPLANATION = ('C01: decides the necessary conditions "no read of indeterminate storage" (R1 over every library record and constructor), '
                '"no address-ordered or hash-ordered iteration feeding behaviour" (R13b/c), "no ambient clock/random/env/thread API" (R13d) and '
@@ -324,3 +324,75 @@ def _precedes(fn, a, b):
     if pa[0] == pb[0]:
         return pa[1] <= pb[1]
     return cfg.dominates(pa[0], pb[0])
+
+
+def _cursor_rule(run):
+    """Reply formatters of the SOCKS test server fill a never-initialised member buffer through a cursor and hand out the
+    first <cursor> bytes: every advance of the cursor is over bytes that were just written (buf[i++] = x, or i += n right
+    after a copy of n bytes to &buf[i]).  A bare ++i / i += n leaves heap content in the bytes sent to the client."""
+    fx = run.fx
+    run.clause('no byte handed to a peer comes from never-written memory: in the SOCKS reply formatters the cursor into the (uninitialised) member buffer advances only over bytes written in the same step')
+    n_adv = 0
+    for f in [g for g in fx.repo_functions() if g.norm in ('sim::socks_connection::format_response', 'sim::socks_connection::format_hostname_response')]:
+        run.touch(f)
+        curs = {}
+        for n in f.all_nodes():
+            if n['k'] == 'un' and n.get('op') in ('++', '--'):
+                an = list(f.ancestors(n))
+                if an and an[0]['k'] == 'sub':
+                    e = q.strip_casts(n.get('e') or n.get('a') or {}) if (n.get('e') or n.get('a')) else None
+                    for x in walk(n):
+                        if x['k'] == 'ref' and x.get('dk') == 'local':
+                            curs[x['did']] = x.get('name')
+        if not curs:
+            run.broke('%s: no buf[cursor++] store found (the reply-formatting idiom changed)' % f.norm)
+            continue
+        copies = [c for c in f.calls() if (q.callee_name(c) or '').split('::')[-1] in ('memcpy', 'memmove', 'copy', 'copy_n', 'strncpy') and c.get('args')]
+        for n in f.all_nodes():
+            is_mod = (n['k'] == 'un' and n.get('op') in ('++', '--')) or (n['k'] == 'bin' and n.get('op') in ('+=', '-=', '='))
+            if not is_mod:
+                continue
+            tgt = n.get('lhs') if n['k'] == 'bin' else next((x for x in walk(n) if x is not n), None)
+            tgt = q.strip_casts(tgt) if is_node(tgt) else None
+            if not (is_node(tgt) and tgt['k'] == 'ref' and tgt.get('dk') == 'local' and tgt.get('did') in curs):
+                continue
+            n_adv += 1
+            name = curs[tgt['did']]
+            an = list(f.ancestors(n))
+            ok = False
+            if n['k'] == 'un' and n.get('op') == '++' and len(an) >= 2 and an[0]['k'] == 'sub' and an[1]['k'] == 'bin' and an[1].get('op') == '=' and any(y is n for y in walk(an[1].get('lhs'))):
+                ok = True       # buf[i++] = x
+            elif n['k'] == 'bin' and n.get('op') == '+=':
+                amount = q.render(f, q.strip_casts(n.get('rhs')))
+                for c in copies:
+                    pc, pn = f.cfg.node_pos(c), f.cfg.node_pos(n)
+                    dest = q.render(f, c['args'][0])
+                    if pc and pn and pc[0] == pn[0] and pc[1] < pn[1] and ('[%s]' % name in dest or '+ %s' % name in dest) and q.render(f, q.strip_casts(c['args'][-1])) == amount:
+                        ok = True   # copy of n bytes to &buf[i]; i += n
+            elif n['k'] == 'bin' and n.get('op') == '=' and q.int_value(n.get('rhs')) == 0:
+                ok = True       # reset to the start
+            elif n['k'] == 'un' and n.get('op') == '++':
+                # buf[i] = x; ++i;  - the store to the cursor's position is the previous thing done with the cursor in this block
+                pn = f.cfg.node_pos(n)
+                stores = [b_ for b_ in f.all_nodes() if b_['k'] == 'bin' and b_.get('op') == '=' and is_node(b_.get('lhs')) and q.strip_casts(b_['lhs'])['k'] == 'sub'
+                          and q.render(f, q.strip_casts(b_['lhs'])).replace('this->', '').endswith('[%s]' % name)]
+                for b_ in stores:
+                    pb = f.cfg.node_pos(b_)
+                    if pb and pn and pb[0] == pn[0] and pb[1] < pn[1]:
+                        between = [m_ for m_ in f.all_nodes() if m_ is not n and ((m_['k'] == 'un' and m_.get('op') in ('++', '--')) or (m_['k'] == 'bin' and m_.get('op') in ('+=', '-=')))
+                                   and (lambda pm: pm and pm[0] == pn[0] and pb[1] < pm[1] < pn[1])(f.cfg.node_pos(m_)) and any(y['k'] == 'ref' and y.get('did') == tgt['did'] for y in walk(m_))]
+                        if not between:
+                            ok = True
+            run.check(ok, 'R1', 'reply-cursor-over-written-bytes', '%s: %s' % (f.norm, q.render(f, n)[:40]), f.loc(n),
+                      'the cursor `%s` is advanced without the bytes it passes having been written: they keep whatever the heap block held (the buffer is a never-initialised member), and are sent to the client as part of the reply - the payload depends on allocator contents' % name,
+                      'buf[i++] = x, or a copy of n bytes to &buf[i] followed by i += n')
+    if n_adv < 12:
+        run.broke('SOCKS reply formatters: %d cursor advances found, at least 12 confirmed by hand' % n_adv)
+
+
+_check_r8 = check
+
+
+def check(run):
+    _check_r8(run)
+    _cursor_rule(run)
